@@ -166,3 +166,99 @@ func runManyLabels(r *mon.Run) {
 	}
 	r.Count("many_label_lists_judged", int64(n))
 }
+
+// runLabelShapes: the CONTENT of one label. Two or three recipients whose
+// lists are the same but for one label, and that label differs from its
+// counterpart in exactly one byte — at the front, in the middle, at the last
+// byte, and around every power of two up to the length — for label lengths of
+// 1 byte to 70000 bytes (namespaced labels such as
+// "age-encryption.org/postquantum-mlkem768" are longer than any hash block or
+// fixed-size field); and pairs where one label is a proper prefix of the
+// other, or the other followed by a NUL byte or a blank. The odd recipient is
+// put at every position of the list; every case has an equal-set control.
+func runLabelShapes(r *mon.Run) {
+	mkLabel := func(n int) []byte {
+		b := make([]byte, n)
+		for i := range b {
+			b[i] = "abcdefghijklmnopqrstuvwxyz0123456789-./"[(i*7+n)%39]
+		}
+		return b
+	}
+	type pair struct {
+		a, b string
+		desc string
+	}
+	var pairs []pair
+	lengths := []int{1, 2, 7, 8, 9, 15, 16, 17, 24, 31, 32, 33, 40, 47, 48, 63, 64, 65, 100, 127, 128, 129, 255, 256, 257, 1000, 4096, 70000}
+	for _, n := range lengths {
+		base := mkLabel(n)
+		seen := map[int]bool{}
+		for _, at := range []int{0, 1, n / 2, n - 2, n - 1, 7, 8, 15, 16, 17, 31, 32, 33, 63, 64, 65, 127, 128, 255, 256, 4095, 65535, 65536} {
+			if at < 0 || at >= n || seen[at] {
+				continue
+			}
+			seen[at] = true
+			o := append([]byte(nil), base...)
+			o[at] ^= 0x01
+			if o[at] == ',' || o[at] < 0x21 {
+				o[at] = 'Z'
+			}
+			pairs = append(pairs, pair{string(base), string(o), fmt.Sprintf("labels of %d bytes that differ in byte %d only", n, at)})
+		}
+		pairs = append(pairs,
+			pair{string(base), string(base) + "x", fmt.Sprintf("a label of %d bytes and the same followed by one more byte", n)},
+			pair{string(base), string(base) + "\x00", fmt.Sprintf("a label of %d bytes and the same followed by a NUL byte", n)},
+			pair{string(base), string(base) + " ", fmt.Sprintf("a label of %d bytes and the same followed by a blank", n)},
+			pair{string(base), string(base[:n-1]), fmt.Sprintf("a label of %d bytes and its first %d bytes", n, n-1)})
+	}
+	n := 0
+	for _, p := range pairs {
+		if p.b == "" {
+			continue // one label against none: the enumeration of main has it
+		}
+		for _, others := range [][]string{nil, {"postquantum"}, {"zz", "a"}} {
+			for _, count := range []int{2, 3} {
+				if count == 3 && len(p.a) > 300 {
+					continue
+				}
+				for odd := -1; odd < count; odd++ {
+					var rs []age.Recipient
+					calls := 0
+					for i := 0; i < count; i++ {
+						l := append([]string{p.a}, others...)
+						if i == odd {
+							l = append([]string{p.b}, others...)
+						}
+						if i%2 == 1 {
+							// the same list in another order
+							for x, y := 0, len(l)-1; x < y; x, y = x+1, y-1 {
+								l[x], l[y] = l[y], l[x]
+							}
+						}
+						rs = append(rs, mk(labelSpec{labels: l}, i+1, false, &calls))
+					}
+					want := odd < 0
+					dst := &mon.ObservingWriter{}
+					w, err := age.Encrypt(dst, rs...)
+					r.Eval(1)
+					n++
+					desc := fmt.Sprintf("%s, %d other labels, %d recipients, odd one at %d", p.desc, len(others), count, odd)
+					r.Distinct("label-shape " + desc)
+					replay := map[string]any{"case": desc, "label_a_hex_tail": fmt.Sprintf("%x", mon.Trunc([]byte(p.a), 80)), "label_b_len": len(p.b)}
+					switch {
+					case err == nil && !want:
+						r.Violate("label-shape:accepted-incompatible", "Encrypt accepted recipients with different label sets: "+desc, replay)
+					case err != nil && want:
+						r.Violate("label-shape:refused-compatible", fmt.Sprintf("Encrypt refused recipients with equal label sets: %s: %v", desc, err), replay)
+					case err != nil && dst.Len() != 0:
+						r.Violate("label-shape:bytes-on-refusal", fmt.Sprintf("%s: refused after writing %d bytes", desc, dst.Len()), replay)
+					}
+					if err == nil && w != nil {
+						w.Close()
+					}
+				}
+			}
+		}
+	}
+	r.Count("label_shape_lists_judged", int64(n))
+}
